@@ -44,7 +44,7 @@ def index_data(cls, L, shape, dtype=None):
     return x.astype(dtype or np.float64)
 
 
-LAYOUTS = ["c", "c", "c", "fortran", "strided", "reversed", "c", "strided"]
+LAYOUTS = ["c", "c", "c", "fortran", "strided", "reversed", "c", "strided", "lastmajor", "swapped", "c", "lastmajor"]
 
 
 def relayout(x, how):
@@ -59,7 +59,16 @@ def relayout(x, how):
         return buf[::2]
     if how == "reversed":                # negative stride along time
         return np.ascontiguousarray(x[::-1])[::-1]
+    if how == "lastmajor":               # the last sample axis varies slowest (e.g. polarisation-major buffers): x[..., k] is contiguous
+        return np.moveaxis(np.ascontiguousarray(np.moveaxis(x, -1, 0)), 0, -1)
+    if how == "swapped":                 # the other byte order (big-endian dumps, FITS): the same numbers
+        return x.astype(x.dtype.newbyteorder("S"))
     raise KeyError(how)
+
+
+def same_dtype(a, b):
+    """equal kind and precision; the byte order is a property of a buffer, not of the numbers (results of arithmetic are native)"""
+    return np.dtype(a).newbyteorder("=") == np.dtype(b).newbyteorder("=")
 
 
 def make(pb, cls, L, rate, t0=None, nchan=3, extra=(), center_freq=None, chan_bw=None,
@@ -69,7 +78,8 @@ def make(pb, cls, L, rate, t0=None, nchan=3, extra=(), center_freq=None, chan_bw
         data = index_data(cls, L, shape, dtype)
     if layout != "keep" and os.environ.get("PBVERIF_LAYOUT", "1") != "0":
         # deterministic per input: half of all NumPy-backed inputs are not C-contiguous
-        key = (zlib.crc32(repr((cls, int(L), tuple(np.shape(data)), str(rate), str(t0))).encode()) >> 3) % len(LAYOUTS)
+        head = np.ascontiguousarray(data[:2]).tobytes()[:256] if isinstance(data, np.ndarray) and data.ndim else b""
+        key = (zlib.crc32(repr((cls, int(L), tuple(np.shape(data)), str(rate), str(t0))).encode() + head) >> 3) % len(LAYOUTS)
         data = relayout(data, layout or LAYOUTS[key])
     # arguments equal to their documented defaults are left out: the defaults are part of the interface
     kw = dict(sample_rate=rate)
